@@ -32,6 +32,8 @@ class Prop(BaseProp):
     id = "C08"
     theorems = ["C08_request_size", "C08_entropy_is_os_bytes", "C08_indexes_injective"]
     exec_modules = ["Exec.C08"]
+    extra_modules = {"C08Src": ["C08_source_any_answer", "C08_source_entropy_bits_is_model", "C08_source_translated"]}
+    pysem_funcs = ["bip39.mnemonic_from_entropy_bits"]
     exec_import = "From BHW Require Import Lib.Base Exec.Common Exec.C08.\nFrom Coq Require Import String.\nOpen Scope string_scope."
     shard = 20
     second_pass = False          # fresh entropy differs between runs by design
